@@ -6,6 +6,7 @@ import Hgxv.Proofs.C15Exact
 import Hgxv.Proofs.C15Stop
 import Hgxv.Proofs.C15Session
 import Hgxv.Proofs.C15LogBinom
+import Hgxv.Proofs.C15Init
 /-! # C15 — Hy-MMSBM quantities equal their definitions; EM ascends, fixed inputs stay
 
 Theorems about the executable model `Hgxv/Model/C15.lean` (exact rationals; `Real.log` for the
@@ -564,3 +565,343 @@ example (e : List ℕ) : poisObj (runSession (newObj (some witU) none none) [ses
     rw [(C15_session_after_first_fit _ sesC1 [sesC2, sesC1]).2.2.2]; decide +kernel
   exact (C15_session_query _ _ e witU witW2 ((C15_session_params_stay _ _).1 witU rfl) hw
     (by intro a ha b hb; have : a < 2 := ha; have : b < 2 := hb; interval_cases a <;> interval_cases b <;> rfl)).2
+
+/-! ## extension round: constructor, initial draws, the whole run from the raw draws, `log_likelihood`
+
+The hypotheses "`u ≥ 0`, `w ≥ 0` symmetric (constructor's checks)", "initial draw `≥ 0` symmetric (what `_init_w` produces)" of the
+theorems above are now theorems about the modelled constructor (`construct`) and the modelled `_init_w` / `_init_u` (`initW`, `initU`);
+`fitSeed` is the whole path constructor → draws → loop (with its failing division) → normalisation. -/
+
+/-- **what the constructor guarantees** (`_check_and_infer_param_consistency`): an accepted affinity is non-negative, symmetric on
+`K × K` and diagonal when the model is assortative; accepted memberships are non-negative; `u` and `w` agree on the number of
+communities; `K` / `assortative` are the passed ones, else inferred (`w.shape[0]` before `u.shape[1]`; `assortative` = "`w` is diagonal"). -/
+theorem C15_constructor (c : Ctor) (h : Hyper) (hc : construct c = .ok h) :
+    (∀ w, c.w = some w → (∀ a b, 0 ≤ matOf w a b) ∧ (∀ a < w.length, ∀ b < w.length, matOf w a b = matOf w b a) ∧
+        (h.assortative = true → ∀ a < w.length, ∀ b < w.length, a ≠ b → matOf w a b = 0)) ∧
+    (∀ u, c.u = some u → ∀ i a, 0 ≤ matOf u i a) ∧
+    (∀ u w, c.u = some u → c.w = some w → ncols u = w.length) ∧
+    (∀ k, c.K = some k → h.K = k) ∧ (∀ w, c.K = none → c.w = some w → h.K = w.length) ∧
+    (∀ u, c.K = none → c.w = none → c.u = some u → h.K = ncols u) ∧
+    (∀ a, c.assortative = some a → h.assortative = a) ∧
+    (∀ w, c.assortative = none → c.w = some w →
+        (h.assortative = true ↔ ∀ a < w.length, ∀ b < w.length, a ≠ b → matOf w a b = 0)) := by
+  obtain ⟨hA, hK, hW, hU, hUW⟩ := construct_ok c h hc
+  have hw3 : ∀ w, c.w = some w → anyNeg w = false ∧ (∀ a < w.length, ∀ b < w.length, matOf w a b = matOf w b a) ∧
+      (h.assortative = true → upperZero w.length (matOf w) = true) := by
+    intro w hw
+    obtain ⟨h1, h2, h3⟩ := checkW_none _ w (hW w hw)
+    exact ⟨h1, (symmetricB_iff _ _).mp h2, h3⟩
+  refine ⟨?_, ?_, hUW, ?_, ?_, ?_, ?_, ?_⟩
+  · intro w hw
+    obtain ⟨h1, h2, h3⟩ := hw3 w hw
+    exact ⟨matOf_nonneg_of_mem w ((anyNeg_false_iff w).mp h1), h2, fun ha => (upperZero_diag _ _ h2).mp (h3 ha)⟩
+  · intro u hu
+    exact matOf_nonneg_of_mem u ((anyNeg_false_iff u).mp (hU u hu))
+  · intro k hk
+    unfold inferK at hK; rw [hk] at hK; exact (Option.some.inj hK).symm
+  · intro w hk hw
+    unfold inferK at hK; rw [hk, hw] at hK; exact (Option.some.inj hK).symm
+  · intro u hk hw hu
+    unfold inferK at hK; rw [hk, hw, hu] at hK; exact (Option.some.inj hK).symm
+  · intro a ha
+    unfold inferAssortative at hA; rw [ha] at hA; exact (Option.some.inj hA).symm
+  · intro w ha hw
+    unfold inferAssortative at hA; rw [ha, hw] at hA
+    have hA' : upperZero w.length (matOf w) = h.assortative := Option.some.inj hA
+    rw [← hA']
+    exact upperZero_diag _ _ (hw3 w hw).2.1
+
+/-- **every input of the property's quantifier is accepted**: non-negative `u`, non-negative symmetric `w` (diagonal when
+`assortative=True` is passed) with as many communities as `u` has columns - whatever `K` is passed or left out -/
+theorem C15_constructor_accepts (k : Option ℕ) (u w : List (List Rat)) (ass : Bool)
+    (hu : ∀ row ∈ u, ∀ v ∈ row, 0 ≤ v) (hw : ∀ row ∈ w, ∀ v ∈ row, 0 ≤ v)
+    (hs : ∀ a < w.length, ∀ b < w.length, matOf w a b = matOf w b a)
+    (hd : ass = true → ∀ a < w.length, ∀ b < w.length, a ≠ b → matOf w a b = 0)
+    (hK : ncols u = w.length) :
+    construct { K := k, u := some u, w := some w, assortative := some ass }
+      = .ok { K := k.getD w.length, assortative := ass } :=
+  construct_accepts k u w ass hu hw hs hd hK
+
+/-- **`_init_w`**, all four branches (prior the float `0.0` or not × assortative or not), for EVERY value of the raw draws `g ≥ 0`
+and every prior with rates `≥ 0`: the initial affinity is non-negative, symmetric, diagonal when assortative; in the uniform
+non-assortative branch its upper triangle is the draw itself, in the exponential branches the entries are `draw / rate`. -/
+theorem C15_init_w (K : ℕ) (ass : Bool) (prior : Prior) (g : List (List Rat)) (hg : ∀ a b, 0 ≤ matOf g a b)
+    (hp : ∀ a b, 0 ≤ prior.mat a b) :
+    (∀ a b, 0 ≤ matOf (initW K ass prior g) a b) ∧
+    (∀ a b, matOf (initW K ass prior g) a b = matOf (initW K ass prior g) b a) ∧
+    (ass = true → ∀ a b, a ≠ b → matOf (initW K ass prior g) a b = 0) ∧
+    (prior.isZeroFloat = true → ∀ a < K, ∀ b < K, a ≤ b → (ass = false ∨ a = b) → matOf (initW K ass prior g) a b = matOf g a b) ∧
+    (prior.isZeroFloat = false → ass = false → ∀ a < K, ∀ b < K, a ≤ b →
+        matOf (initW K ass prior g) a b = 1 / prior.mat a b * matOf g a b) ∧
+    (prior.isZeroFloat = false → ass = true → ∀ a < K, matOf (initW K ass prior g) a a = 1 / prior.mat a a * matOf g 0 a) := by
+  refine ⟨initW_nonneg K ass prior g hg hp, initW_symm K ass prior g,
+    fun ha a b hab => by subst ha; exact initW_diag K prior g a b hab, ?_, ?_, ?_⟩
+  · intro hz a ha b hb hab hor
+    unfold initW
+    rw [matOf_toRows_in _ _ _ a b ha hb]
+    unfold initWMat
+    rw [if_pos hz]
+    rcases hor with h | h
+    · subst h; simp [symUpper, hab]
+    · subst h; cases ass <;> simp [symUpper, diagOnly]
+  · intro hz ha a haK b hb hab
+    subst ha
+    unfold initW
+    rw [matOf_toRows_in _ _ _ a b haK hb]
+    unfold initWMat
+    simp [hz, symUpper, hab]
+  · intro hz ha a haK
+    subst ha
+    unfold initW
+    rw [matOf_toRows_in _ _ _ a a haK haK]
+    unfold initWMat
+    simp [hz]
+
+/-- **`_init_u`**: non-negative for every raw draw `≥ 0` and every prior with rates `≥ 0` -/
+theorem C15_init_u (N K : ℕ) (prior : Prior) (g : List (List Rat)) (hg : ∀ i a, 0 ≤ matOf g i a)
+    (hp : ∀ i a, 0 ≤ prior.mat i a) : ∀ i a, 0 ≤ matOf (initU N K prior g) i a :=
+  initU_nonneg N K prior g hg hp
+
+/-- **the loop with its failing division is the loop**: whenever no `hye_weights / poisson_params` divided by zero in `n` passes
+(`emLoop? = some`), the state is the one `emLoop` computes (about which `C15_fit_returns`, `C15_ascent` speak) - the totalised
+division `x / 0 = 0` of `Rat` is never what a theorem about a guarded run rests on. -/
+theorem C15_guarded_loop (d : Data) (fu fw : Bool) (ru rw : Mat) (n : ℕ) (p q : Params)
+    (h : emLoop? d fu fw ru rw n p = some q) : q = emLoop d fu fw ru rw n p :=
+  emLoop?_eq d fu fw ru rw n p q h
+
+/-- **finite, memberships supplied**: for every `n`, every initial affinity `≥ 0` under which the data have positive Poisson
+parameters, every prior `≥ 0`: no pass of the loop ever divides by zero (the Poisson parameters stay positive). -/
+theorem C15_fit_finite_supplied_u (d : Data) (us w0 : List (List Rat)) (ru rw : Mat)
+    (hu : ∀ i a, 0 ≤ matOf us i a) (hw0 : ∀ a b, 0 ≤ matOf w0 a b) (hA : ∀ e < d.E, 0 < d.A e)
+    (hr : ∀ a b, 0 ≤ rw a b)
+    (hlam : ∀ e < d.E, 0 < poisson d.N d.K (matOf us) (matOf w0) (d.edge e)) (n : ℕ) :
+    emLoop? d true false ru rw n { u := us, w := w0 } = some (emLoop d true false ru rw n { u := us, w := w0 }) :=
+  emLoop?_supplied_u d us w0 ru rw hu hw0 hA hr hlam n
+
+/-- **`fit` keeps the parameters non-negative, `w` symmetric and diagonal** - the whole call, BOTH updates alternating, either
+exit of the loop, every `n_iter`, then the division by `C()` / `sqrt(C())`: if the parameters the loop starts from are non-negative,
+`w` symmetric and zero on a pattern `Z` (off the diagonal: assortative), so are the returned ones.  Hypotheses: weights `≥ 0`,
+`w_prior` symmetric, `sqrt(C()) ≥ 0`. -/
+theorem C15_fit_keeps_shape (Z : ℕ → ℕ → Prop) (d : Data) (uSup wSup : Option (List (List Rat))) (Dsup : Option ℕ)
+    (u0 w0 : List (List Rat)) (ru rw : Mat) (sqrtC : Rat) (stop : Option Stop) (n D : ℕ) (p : Params)
+    (hA : ∀ e < d.E, 0 ≤ d.A e) (hrs : ∀ a b, rw a b = rw b a) (hs : 0 ≤ sqrtC)
+    (hu0 : ∀ i a, 0 ≤ matOf (uSup.getD u0) i a) (hw0 : ∀ a b, 0 ≤ matOf (wSup.getD w0) a b)
+    (hsym : ∀ a b, matOf (wSup.getD w0) a b = matOf (wSup.getD w0) b a)
+    (hZ : ∀ a b, Z a b → matOf (wSup.getD w0) a b = 0)
+    (h : fit d uSup wSup Dsup u0 w0 ru rw sqrtC stop n = some (D, p)) :
+    (∀ i a, 0 ≤ matOf p.u i a) ∧ (∀ a b, 0 ≤ matOf p.w a b) ∧ (∀ a b, matOf p.w a b = matOf p.w b a) ∧
+    (∀ a b, Z a b → matOf p.w a b = 0) := by
+  have := fit_inv Z d uSup wSup Dsup u0 w0 ru rw sqrtC stop n D p hA hrs hs ⟨hu0, hw0, hsym, hZ⟩ h
+  exact ⟨this.u_nonneg, this.w_nonneg, this.w_symm, this.w_zero⟩
+
+/-- **the property's sentence about `fit`, from the constructor arguments and the RAW draws of the generator**, for both variants
+(`assortative` true / false, passed or inferred), every prior branch, either parameter supplied or none, every `n_iter`, tolerance
+and `check_convergence_every`: when `HyMMSBM(..).fit(..)` returns (`fitSeed = ok`: accepted by the constructor, `max_hye_size` covers
+the data, no division by a vanishing Poisson parameter on the way) then a supplied `u` / `w` is returned as it was, all parameters are
+`≥ 0`, `w` is symmetric, and diagonal when the model is assortative.  Hypotheses: raw draws `≥ 0` (uniform / standard exponential
+variates), prior rates `≥ 0` and `w_prior` symmetric, weights `≥ 0`, `sqrt(C()) ≥ 0`, a supplied `w` is a `K × K` array. -/
+theorem C15_fit_from_seed (s : Seed) (N : ℕ) (edges : List (List ℕ)) (A : List Rat) (D : ℕ) (p : Params) (it : ℕ) (reached : Bool)
+    (hgw : ∀ a b, 0 ≤ matOf s.gw a b) (hgu : ∀ i a, 0 ≤ matOf s.gu i a)
+    (hpu : ∀ i a, 0 ≤ s.uPrior.mat i a) (hpw : ∀ a b, 0 ≤ s.wPrior.mat a b)
+    (hpws : ∀ a b, s.wPrior.mat a b = s.wPrior.mat b a)
+    (hA : ∀ x ∈ A, 0 ≤ x) (hs : 0 ≤ s.sqrtC)
+    (hsq : ∀ w, s.ctor.w = some w → ∀ row ∈ w, row.length = w.length)
+    (h : fitSeed s N edges A = .ok D p it reached) :
+    ∃ hy, construct s.ctor = .ok hy ∧
+      (∀ us, s.ctor.u = some us → p.u = us) ∧ (∀ ws, s.ctor.w = some ws → p.w = ws) ∧
+      (∀ i a, 0 ≤ matOf p.u i a) ∧ (∀ a b, 0 ≤ matOf p.w a b) ∧ (∀ a b, matOf p.w a b = matOf p.w b a) ∧
+      (hy.assortative = true → ∀ a b, a ≠ b → matOf p.w a b = 0) ∧
+      (∀ D0, s.Dsup = some D0 → D = D0) ∧ maxSize (dataOf N hy.K edges A) ≤ D := by
+  obtain ⟨hy, w0, u0, hc, hw, hu, hf, _, _, _⟩ := fitSeed_ok s N edges A D p it reached h
+  obtain ⟨cW, cU, _, _, _, _, _, _⟩ := C15_constructor s.ctor hy hc
+  have hA' : ∀ e < (dataOf N hy.K edges A).E, 0 ≤ (dataOf N hy.K edges A).A e := by
+    intro e _
+    show 0 ≤ A.getD e 0
+    rw [List.getD_eq_getElem?_getD]
+    cases hx : A[e]? with
+    | none => simp
+    | some x => simpa using hA x (List.mem_of_getElem? hx)
+  -- the parameters the loop starts from
+  have hu0 : ∀ i a, 0 ≤ matOf (s.ctor.u.getD u0) i a := by
+    cases hsu : s.ctor.u with
+    | some us => exact cU us hsu
+    | none =>
+      obtain ⟨_, rfl⟩ := seedU0_inferred s hy N u0 hsu hu
+      exact initU_nonneg N hy.K s.uPrior s.gu hgu hpu
+  have hw0 : (∀ a b, 0 ≤ matOf (s.ctor.w.getD w0) a b) ∧
+      (∀ a b, matOf (s.ctor.w.getD w0) a b = matOf (s.ctor.w.getD w0) b a) ∧
+      (∀ a b, (hy.assortative = true ∧ a ≠ b) → matOf (s.ctor.w.getD w0) a b = 0) := by
+    cases hsw : s.ctor.w with
+    | some ws =>
+      obtain ⟨h1, h2, h3⟩ := cW ws hsw
+      exact ⟨h1, matOf_symm_square ws (hsq ws hsw) h2,
+        fun a b hab => matOf_diag_square ws (hsq ws hsw) (h3 hab.1) a b hab.2⟩
+    | none =>
+      obtain ⟨_, rfl⟩ := seedW0_inferred s hy w0 hsw hw
+      refine ⟨initW_nonneg _ _ _ _ hgw hpw, initW_symm _ _ _ _, fun a b hab => ?_⟩
+      have hass := hab.1
+      rw [hass]
+      exact initW_diag _ _ _ a b hab.2
+  obtain ⟨r1, r2, r3, r4⟩ := C15_fit_keeps_shape (fun a b => hy.assortative = true ∧ a ≠ b) _ s.ctor.u s.ctor.w s.Dsup u0 w0
+    s.uPrior.mat s.wPrior.mat s.sqrtC s.stop s.n D p hA' hpws hs hu0 hw0.1 hw0.2.1 hw0.2.2 hf
+  refine ⟨hy, hc, ?_, ?_, r1, r2, r3, fun ha a b hab => r4 a b ⟨ha, hab⟩, ?_, ?_⟩
+  · intro us hus
+    rw [hus] at hf
+    exact C15_fixed_u _ us s.ctor.w s.Dsup u0 w0 _ _ s.sqrtC s.stop s.n D p hf
+  · intro ws hws
+    rw [hws] at hf
+    exact C15_fixed_w _ s.ctor.u ws s.Dsup u0 w0 _ _ s.sqrtC s.stop s.n D p hf
+  · intro D0 hD0
+    rw [hD0] at hf
+    exact (C15_fixed_max_size _ s.ctor.u s.ctor.w D0 u0 w0 _ _ s.sqrtC s.stop s.n D p hf).1
+  · obtain ⟨hm, _, _⟩ := fit_some _ s.ctor.u s.ctor.w s.Dsup u0 w0 _ _ s.sqrtC s.stop s.n D p hf
+    unfold fitMaxSize at hm
+    cases hD : s.Dsup with
+    | none => rw [hD] at hm; simp only [Option.some.injEq] at hm; omega
+    | some D0 =>
+      rw [hD] at hm
+      by_cases hlt : D0 < maxSize (dataOf N hy.K edges A)
+      · simp [hlt] at hm
+      · simp only [hlt, if_false, Option.some.injEq] at hm; omega
+
+/-- **ascent from the raw draws, for each variant** (assortative or not, prior the float `0.0` or positive rates): memberships
+supplied to the constructor, affinity drawn by `_init_w` from ANY raw draw `g ≥ 0`: if `fit(n_iter = n)` and `fit(n_iter = n + 1)`
+return (same seed), the exact Poisson log-likelihood of the data under the returned affinity (penalised by the prior term when the
+rates are positive - D28 -, the plain likelihood for `w_prior = 0.0`) does not decrease.  The facts `C15_ascent_fit` assumed about the
+supplied memberships and the initial affinity are derived here from the modelled constructor and `_init_w`; what remains is what the
+property's quantifier gives (weights `> 0`, sizes in `2..N`, `2 ≤ max_hye_size ≤ N`, symmetric rates `≥ 0`) and positive Poisson
+parameters of the data under the initial draw. -/
+theorem C15_ascent_from_seed (s : Seed) (N : ℕ) (edges : List (List ℕ)) (A : List Rat) (us : List (List Rat))
+    (hus : s.ctor.u = some us) (hws : s.ctor.w = none)
+    (hgw : ∀ a b, 0 ≤ matOf s.gw a b) (hpw : ∀ a b, 0 ≤ s.wPrior.mat a b) (hpws : ∀ a b, s.wPrior.mat a b = s.wPrior.mat b a)
+    (D D' : ℕ) (p p' : Params) (it it' : ℕ) (r r' : Bool)
+    (h1 : fitSeed s N edges A = .ok D p it r)
+    (h2 : fitSeed { s with n := s.n + 1 } N edges A = .ok D' p' it' r')
+    (hy : Hyper) (hc : construct s.ctor = .ok hy)
+    (hA : ∀ e < (dataOf N hy.K edges A).E, 0 < (dataOf N hy.K edges A).A e)
+    (hsize : ∀ e < (dataOf N hy.K edges A).E, 2 ≤ ((dataOf N hy.K edges A).edge e).length ∧ ((dataOf N hy.K edges A).edge e).length ≤ N)
+    (hlam : ∀ e < (dataOf N hy.K edges A).E, 0 < poisson N hy.K (matOf us)
+        (matOf (initW hy.K hy.assortative s.wPrior s.gw)) ((dataOf N hy.K edges A).edge e))
+    (hD2 : 2 ≤ D) (hDN : D ≤ N) :
+    D' = D ∧ exactLik (dataOf N hy.K edges A) D (matOf us) s.wPrior.mat (matOf p.w)
+      ≤ exactLik (dataOf N hy.K edges A) D (matOf us) s.wPrior.mat (matOf p'.w) := by
+  obtain ⟨hy1, w0, u0, hc1, hw1, hu1, hf1, _, _, _⟩ := fitSeed_ok s N edges A D p it r h1
+  obtain ⟨hy2, w0', u0', hc2, hw2, hu2, hf2, _, _, _⟩ := fitSeed_ok _ N edges A D' p' it' r' h2
+  have e1 : hy1 = hy := by rw [hc] at hc1; injection hc1 with h; exact h.symm
+  have e2 : hy2 = hy := by
+    have : construct s.ctor = .ok hy2 := hc2
+    rw [hc] at this; injection this with h; exact h.symm
+  rw [e1] at hw1 hu1 hf1
+  rw [e2] at hw2 hu2 hf2
+  obtain ⟨_, hw0⟩ := seedW0_inferred s hy w0 hws hw1
+  have hw2' : seedW0 s hy = some w0' := hw2
+  obtain ⟨_, hw0'⟩ := seedW0_inferred s hy w0' hws hw2'
+  have hu2' : seedU0 s hy N = some u0' := hu2
+  have hu0 : u0' = u0 := by rw [hu1] at hu2'; exact (Option.some.inj hu2').symm
+  subst hw0; subst hw0'; subst hu0
+  obtain ⟨_, cU, _⟩ := C15_constructor s.ctor hy hc
+  rw [hus, hws] at hf1
+  have hf2' : fit (dataOf N hy.K edges A) s.ctor.u s.ctor.w s.Dsup u0' (initW hy.K hy.assortative s.wPrior s.gw)
+      s.uPrior.mat s.wPrior.mat s.sqrtC s.stop (s.n + 1) = some (D', p') := hf2
+  rw [hus, hws] at hf2'
+  exact C15_ascent_fit (dataOf N hy.K edges A) us u0' (initW hy.K hy.assortative s.wPrior s.gw) s.Dsup s.uPrior.mat
+    s.wPrior.mat s.sqrtC s.stop (cU us hus) (initW_nonneg _ _ _ _ hgw hpw) hA hpw hlam (initW_symm _ _ _ _) hpws hsize
+    s.n D D' p p' hf1 hf2' hD2 hDN
+
+/-- **the monitored quantity IS the model's log-likelihood**: `HyMMSBM.log_likelihood(H)` evaluated on parameters `(u, w)`
+(`−bf_and_sum(u, w) + Σ_e A_e log λ_e`, assembled from the ingredients the driver reports) is the objective `penLik` with rate 0
+that `C15_ascent_step` / `C15_ascent` speak about, hence - for symmetric `w` and positive Poisson parameters - the exact Poisson
+log-likelihood of the data under the normalised affinity `w / C()` plus a constant that depends on the data only. -/
+theorem C15_log_likelihood (d : Data) (D : ℕ) (u w : Mat)
+    (hw : ∀ a < d.K, ∀ b < d.K, w a b = w b a) (hD2 : 2 ≤ D) (hDN : D ≤ d.N)
+    (hsize : ∀ e < d.E, 2 ≤ (d.edge e).length ∧ (d.edge e).length ≤ d.N)
+    (hlam : ∀ e < d.E, 0 < poisson d.N d.K u w (d.edge e)) :
+    logLikMethod d u w = penLik d u (fun _ _ => 0) w ∧
+    logLikMethod d u w = exactLik d D u (fun _ _ => 0) (fun a b => w a b / C (dims 2 D))
+      + ∑ e ∈ range d.E, ((d.A e : ℚ) : ℝ) * Real.log (((C (dims 2 D) * kappa d.N (d.edge e).length : ℚ)) : ℝ) := by
+  refine ⟨logLikMethod_eq_penLik d u w, ?_⟩
+  rw [logLikMethod_eq_penLik, C15_exact_likelihood d D u (fun _ _ => 0) w hw hD2 hDN hsize hlam]
+  ring
+
+/-- **`log_likelihood` never decreases along the w-updates of `fit`** when the memberships are supplied and `w_prior = 0.0`
+(evaluated on the loop's own, not yet normalised, affinity), for every initial draw `≥ 0` with positive Poisson parameters. -/
+theorem C15_log_likelihood_ascends (d : Data) (us w0 : List (List Rat)) (ru : Mat)
+    (hu : ∀ i a, 0 ≤ matOf us i a) (hw0 : ∀ a b, 0 ≤ matOf w0 a b) (hA : ∀ e < d.E, 0 < d.A e)
+    (hlam : ∀ e < d.E, 0 < poisson d.N d.K (matOf us) (matOf w0) (d.edge e)) (n : ℕ) :
+    logLikMethod d (matOf us) (matOf (emLoop d true false ru (fun _ _ => 0) n { u := us, w := w0 }).w)
+      ≤ logLikMethod d (matOf us) (matOf (emLoop d true false ru (fun _ _ => 0) (n + 1) { u := us, w := w0 }).w) := by
+  rw [logLikMethod_eq_penLik, logLikMethod_eq_penLik]
+  exact C15_ascent d us w0 ru (fun _ _ => 0) hu hw0 hA (fun _ _ => le_refl 0) hlam n
+
+/-! ### non-vacuity of the extension-round theorems (the D28 data, raw exponential draws `(1, 1)`, `w_prior = 1.0`, assortative) -/
+
+example : construct { K := none, u := some witU, w := some witW0, assortative := none } = .ok { K := 2, assortative := true } ∧
+    construct { K := some 2, u := none, w := some [[1, 2], [3, 1]], assortative := some false } = .error .wNotSymmetric ∧
+    construct { K := none, u := some witU, w := some [[1, 2], [2, 1]], assortative := some true } = .error .wNotDiagonal ∧
+    construct { K := none, u := some witU, w := none, assortative := none } = .error .noAssortative := by decide +kernel
+
+example : ∀ a < 2, ∀ b < 2, a ≠ b → matOf witW0 a b = 0 :=
+  ((C15_constructor { K := none, u := some witU, w := some witW0, assortative := none } { K := 2, assortative := true }
+    (by decide +kernel)).1 witW0 rfl).2.2 rfl
+
+example : construct { K := none, u := some witU, w := some witW0, assortative := some true }
+    = .ok { K := (none : Option ℕ).getD witW0.length, assortative := true } :=
+  C15_constructor_accepts none witU witW0 true (by decide) (by decide) (fun a _ b _ => witW0_symm a b)
+    (fun _ a ha b hb hab => by
+      have : a < 2 := ha
+      have : b < 2 := hb
+      interval_cases a <;> interval_cases b <;> first | rfl | exact absurd rfl hab)
+    rfl
+
+/-- the four branches of `_init_w` on concrete raw draws -/
+example : initW 2 true (.scalar 1) [[1, 1]] = witW0 ∧ initW 2 false (.scalar 0) [[1/2, 1/4], [1/8, 3/4]] = [[1/2, 1/4], [1/4, 3/4]] ∧
+    initW 2 true (.scalar 0) [[1/2, 1/4], [1/8, 3/4]] = [[1/2, 0], [0, 3/4]] ∧
+    initW 2 false (.array [[1, 2], [2, 4]]) [[1/2, 1/4], [1/8, 3/4]] = [[1/2, 1/8], [1/8, 3/16]] ∧
+    initU 3 2 (.scalar (1/2)) [[1, 2], [3, 4], [5, 6]] = [[2, 4], [6, 8], [10, 12]] := by decide +kernel
+
+example : (∀ a b, 0 ≤ matOf (initW 2 false (.array [[1, 2], [2, 4]]) [[1/2, 1/4], [1/8, 3/4]]) a b) ∧
+    (∀ a b, matOf (initW 2 false (.array [[1, 2], [2, 4]]) [[1/2, 1/4], [1/8, 3/4]]) a b
+      = matOf (initW 2 false (.array [[1, 2], [2, 4]]) [[1/2, 1/4], [1/8, 3/4]]) b a) := by
+  have hg : ∀ a b, 0 ≤ matOf [[(1/2 : ℚ), 1/4], [1/8, 3/4]] a b :=
+    matOf_nonneg_of_mem _ (by decide +kernel)
+  have hp : ∀ a b, 0 ≤ (Prior.array [[1, 2], [2, 4]]).mat a b := matOf_nonneg_of_mem _ (by decide +kernel)
+  obtain ⟨h1, h2, _⟩ := C15_init_w 2 false (.array [[1, 2], [2, 4]]) [[1/2, 1/4], [1/8, 3/4]] hg hp
+  exact ⟨h1, h2⟩
+
+example (n : ℕ) : emLoop? witD true false (fun _ _ => 0) witR n { u := witU, w := witW0 }
+    = some (emLoop witD true false (fun _ _ => 0) witR n { u := witU, w := witW0 }) :=
+  C15_fit_finite_supplied_u witD witU witW0 (fun _ _ => 0) witR witU_nonneg witW0_nonneg witD_A (fun _ _ => by simp [witR]) witD_lam n
+
+/-- the guard really fails somewhere: a hyperedge of size 1 has Poisson parameter 0 -/
+example : emLoop? (dataOf 3 2 [[0]] [1]) true false (fun _ _ => 0) witR 1 { u := witU, w := witW0 } = none := by decide +kernel
+
+/-- the whole path on the D28 data returns for every `n_iter`, the returned parameters have the property's shape, and the exact
+penalised likelihood ascends from `n_iter = n` to `n + 1` -/
+example (n : ℕ) : ∃ p it r p' it' r', fitSeed (exSeed n) 3 [[0, 1], [0, 2]] [3, 3] = .ok 2 p it r ∧
+    fitSeed (exSeed (n + 1)) 3 [[0, 1], [0, 2]] [3, 3] = .ok 2 p' it' r' ∧ p.u = witU ∧
+    (∀ a b, 0 ≤ matOf p.w a b) ∧ (∀ a b, a ≠ b → matOf p.w a b = 0) ∧
+    exactLik witD 2 (matOf witU) witR (matOf p.w) ≤ exactLik witD 2 (matOf witU) witR (matOf p'.w) := by
+  obtain ⟨p, it, r, h⟩ := exSeed_ok n
+  obtain ⟨p', it', r', h'⟩ := exSeed_ok (n + 1)
+  have hg : ∀ a b, 0 ≤ matOf (exSeed n).gw a b :=
+    (show ∀ a b, 0 ≤ matOf [[(1 : ℚ), 1]] a b from matOf_nonneg_of_mem _ (by decide +kernel))
+  obtain ⟨hy, hc, hu, _, _, hw, _, hd, _, _⟩ := C15_fit_from_seed (exSeed n) 3 [[0, 1], [0, 2]] [3, 3] 2 p it r hg
+    (show ∀ i a, 0 ≤ matOf ([] : List (List ℚ)) i a from matOf_nonneg_of_mem _ (by simp)) (fun _ _ => le_refl 0)
+    (fun _ _ => by simp [exSeed, Prior.mat])
+    (fun _ _ => rfl) (by decide +kernel) (show (0 : ℚ) ≤ 1 by norm_num) (fun w hw => by simp [exSeed] at hw) h
+  have hyv : hy = { K := 2, assortative := true } := by
+    have := exSeed_ctor n; rw [hc] at this; injection this
+  subst hyv
+  refine ⟨p, it, r, p', it', r', h, h', hu witU rfl, hw, hd rfl, ?_⟩
+  exact (C15_ascent_from_seed (exSeed n) 3 [[0, 1], [0, 2]] [3, 3] witU rfl rfl hg (fun _ _ => by simp [exSeed, Prior.mat])
+    (fun _ _ => rfl) 2 2 p p' it it' r r' h h' { K := 2, assortative := true } (exSeed_ctor n) witD_A witD_size
+    (by rw [show initW 2 true (exSeed n).wPrior (exSeed n).gw = witW0 by (show initW 2 true (.scalar 1) [[1, 1]] = witW0); decide +kernel]
+        exact witD_lam)
+    (by decide) (by decide)).2
+
+example : logLikMethod witD (matOf witU) (matOf witW1) = penLik witD (matOf witU) (fun _ _ => 0) (matOf witW1) :=
+  logLikMethod_eq_penLik _ _ _
+
+example (n : ℕ) : logLikMethod witD (matOf sglU) (matOf (emLoop witD true false (fun _ _ => 0) (fun _ _ => 0) n { u := sglU, w := witW0 }).w)
+    ≤ logLikMethod witD (matOf sglU) (matOf (emLoop witD true false (fun _ _ => 0) (fun _ _ => 0) (n + 1) { u := sglU, w := witW0 }).w) :=
+  C15_log_likelihood_ascends witD sglU witW0 (fun _ _ => 0) sglU_nonneg witW0_nonneg witD_A sgl_lam n
